@@ -373,6 +373,26 @@ func parseRule(node *yaml.Node, offsetLine, offsetColumn int, contentLines []str
 		part *yaml.Node
 		key  string
 	}{
+		{key: recordKey, part: recordNode},
+		{key: alertKey, part: alertNode},
+		{key: exprKey, part: exprNode},
+	} {
+		// YAML null (~, null, Null, NULL or no value) is an empty string for Prometheus.
+		if entry.part != nil && entry.part.ShortTag() == nullTag {
+			return Rule{
+				Lines: lines,
+				Error: ParseError{
+					Line: entry.part.Line + offsetLine,
+					Err:  fmt.Errorf("%s value cannot be empty", entry.key),
+				},
+			}, false
+		}
+	}
+
+	for _, entry := range []struct {
+		part *yaml.Node
+		key  string
+	}{
 		{key: labelsKey, part: labelsNode},
 		{key: annotationsKey, part: annotationsNode},
 	} {
